@@ -14,6 +14,7 @@ package main
 import (
 	"fmt"
 	"go/token"
+	"sort"
 	"strings"
 
 	"golang.org/x/tools/go/ssa"
@@ -216,7 +217,7 @@ func (r *persistRule) OnInstr(e *Engine, st *State, fc *FrameCtx, in ssa.Instruc
 	if isDynamicCall(c) {
 		if tn, fld, _, ok := fieldLoad(c.Value); ok && tn == "EventBus" && fld == r.R.BusPersistErrH {
 			s.H++
-			r.sites["error-handler-call@"+r.p.Pos(in.Pos())] = in.Pos()
+			r.sites[fmt.Sprintf("error-handler-call@%d", in.Pos())] = in.Pos()
 			st.Note(in.Pos(), "persistence error handler called")
 			if s.L != 'n' {
 				e.Report(st, in.Pos(), "persist-fn/error-handler/outside-lock", "the persistence error handler runs while the store lock is held: a handler that publishes (e.g. a dead-letter event) deadlocks the publish")
@@ -534,11 +535,16 @@ func runPersist(c *Ctx, p *Prog, R *BusRoles, want map[string]string) {
 		dis("C20.R1", "persist-fn/obs-pairing", p.Pos(pos), "#OnPersistStart = #OnPersistComplete = #Append on every path; Complete gets Append's error outside the lock")
 	}
 	n := 0
+	var ehPos []token.Pos
 	for k, pos := range r.sites {
 		if strings.HasPrefix(k, "error-handler-call@") {
-			n++
-			dis("C13.R2", "persist-fn/"+k, p.Pos(pos), "called exactly once on this failure path with (event, type, wrapped failing error), outside the store lock")
+			ehPos = append(ehPos, pos)
 		}
+	}
+	sort.Slice(ehPos, func(i, j int) bool { return ehPos[i] < ehPos[j] })
+	for i, pos := range ehPos {
+		n++
+		dis("C13.R2", fmt.Sprintf("persist-fn/error-handler-call@#%d", i+1), p.Pos(pos), "called exactly once on this failure path with (event, type, wrapped failing error), outside the store lock")
 	}
 	c.Stats["persist_error_handler_sites"] = n
 	c.Stats["persist_append_sites"] = boolInt(r.sites["append"] != token.NoPos)
